@@ -22,6 +22,7 @@ func init() {
 }
 
 func runC25(c *eng.Ctx) {
+	defer runC25Bounds(c)
 	p := c.P
 	// ---- R1 allocation and write are one critical section; publication order ----
 	{
